@@ -526,6 +526,16 @@ def main():
             extras.setdefault('report', {})['mutation_sweep'] = mutsweep.run(prop, limit=int(os.environ.get('VERIF_MUTSWEEP_N', '60')), seed=seed)
         except Exception as e:  # informational
             extras.setdefault('report', {})['mutation_sweep'] = {'error': str(e)[:200]}
+    if tier == 'thorough' and not no_evidence and os.environ.get('VERIF_BENIGNSWEEP') != '0':
+        try:
+            import benignsweep
+            bs = benignsweep.run(prop, limit=int(os.environ.get('VERIF_BENIGNSWEEP_N', '12')), seed=seed)
+            extras.setdefault('report', {})['benign_sweep'] = bs
+            for fa in bs.get('false_alarms', []):
+                # a defect of the machinery (an alarm on behaviour-preserving code), never a violation of /repo: the check is not to be trusted on that function
+                extras.setdefault('undecided', []).append({'reason': 'machinery-false-alarm', 'unit': 'benign-sweep', 'detail': '%s: %s at line %s -> %s' % (fa['fn'], fa['kind'], fa['line'], fa['verdicts'])})
+        except Exception as e:  # informational
+            extras.setdefault('report', {})['benign_sweep'] = {'error': str(e)[:200]}
     known = load_known()
     violations = []
     known_hits = []
